@@ -56,6 +56,17 @@ def build_graph(desc, directed=None):
     for i in order:
         G.add_node(lab(i))
     edges = [tuple(e) for e in desc['edges']]
+    if desc.get('big') and not edges:
+        # large network kept out of the description (tens of thousands of edges): ring plus random chords from a seed
+        rr = random.Random(desc['big']['seed'])
+        es = set()
+        for i in range(n):
+            es.add((min(i, (i + 1) % n), max(i, (i + 1) % n)))
+            for _ in range(desc['big']['k'] - 1):
+                j = rr.randrange(n)
+                if j != i:
+                    es.add((min(i, j), max(i, j)))
+        edges = sorted(es)
     eorder = desc.get('edge_order') or list(range(len(edges)))
     flip = desc.get('flip') or [False] * len(edges)
     for k in eorder:
